@@ -264,15 +264,27 @@ func (g *G) mapObjectPayload(meth *m.Method, hasBodyVerb bool) {
 		}
 		if canPath && (f.Required || inline) && f.Attr.Default == nil && !(f.Name == "p" && g.avoid("C01-path-param-named-p")) {
 			opts = append(opts, "path")
+			if g.p.ParamHeavy {
+				opts = append(opts, "path")
+			}
 		}
 		if canQuery {
 			opts = append(opts, "query", "query")
+			if g.p.ParamHeavy {
+				opts = append(opts, "query")
+			}
 		}
 		if canHeader {
 			opts = append(opts, "header")
+			if g.p.ParamHeavy {
+				opts = append(opts, "header", "header")
+			}
 		}
 		if canCookie {
 			opts = append(opts, "cookie")
+			if g.p.ParamHeavy {
+				opts = append(opts, "cookie")
+			}
 		}
 		if len(opts) == 0 {
 			// cannot be carried without a body: replace the attribute by a string
